@@ -7,7 +7,7 @@
   D4 built-in opcodes win name lookup: sets searched in registration order, "sys" first
   D5 no long-lived pointer into the realloc'ed opcode-set array
 """
-from facts import AnalysisBroken, access_path, strip_casts, unparse
+from facts import Locals, AnalysisBroken, access_path, strip_casts, unparse
 from flow import Facts
 from rules_common import where, returned_constants, is_null_test
 
@@ -30,22 +30,35 @@ def run(ctx):
         if n.k == "BinaryOperator" and n.op == "=" and strip_casts(n.c[0]).k == "DeclRefExpr":
             sd.setdefault(strip_casts(n.c[0]).name, []).append(strip_casts(n.c[1]))
     # ---- D1 ------------------------------------------------------------------
-    os_def = sd.get("opcode_set", [])
-    j_def = sd.get("j", [])
-    ok = len(os_def) == 1 and os_def[0].k == "CallExpr" and os_def[0].name == "orc_opcode_set_find_by_opcode" and unparse(os_def[0].args()[0]) == "opcode"
+    L = Locals(gr)
+    OPC = [n for n, t in L.decls[:len(gr.params)] if "OrcStaticOpcode" in t]
+    if len(OPC) != 1:
+        raise AnalysisBroken("orc_target_get_rule: opcode parameter not identified")
+    OPC = OPC[0]
+    OSET = L.one("OrcOpcodeSet *", "the opcode's own set")
+    # the slot index: the variable added to / subscripting a `rules` member
+    uses = []
+    for n in gr.walk():
+        if n.k == "BinaryOperator" and n.op == "+" and strip_casts(n.c[0]) is not None and strip_casts(n.c[0]).k == "MemberExpr" and strip_casts(n.c[0]).name == "rules":
+            uses.append((n, strip_casts(n.c[1])))
+        if n.k == "ArraySubscriptExpr" and strip_casts(n.c[0]) is not None and strip_casts(n.c[0]).k == "MemberExpr" and strip_casts(n.c[0]).name == "rules":
+            uses.append((n, strip_casts(n.c[1])))
+    if not uses or any(ix is None or ix.k != "DeclRefExpr" for _, ix in uses) or len({ix.name for _, ix in uses}) != 1:
+        raise AnalysisBroken("orc_target_get_rule: use of the slot index not found")
+    J = uses[0][1].name
+    os_def = sd.get(OSET, [])
+    j_def = sd.get(J, [])
+    ok = len(os_def) == 1 and os_def[0].k == "CallExpr" and os_def[0].name == "orc_opcode_set_find_by_opcode" and unparse(os_def[0].args()[0]) == OPC
     # the slot index is the opcode's position in ITS OWN set: by name lookup in that set, or by pointer difference from that set's array
     by_name = len(j_def) == 1 and j_def[0].k == "CallExpr" and j_def[0].name == "orc_opcode_set_find_by_name" and \
-        unparse(j_def[0].args()[0]) == "opcode_set" and unparse(j_def[0].args()[1]) == "opcode->name"
-    by_diff = len(j_def) == 1 and j_def[0].k == "BinaryOperator" and j_def[0].op == "-" and unparse(strip_casts(j_def[0].c[0])) == "opcode" and \
-        unparse(strip_casts(j_def[0].c[1])) == "opcode_set->opcodes"
+        unparse(j_def[0].args()[0]) == OSET and unparse(j_def[0].args()[1]) == "%s->name" % OPC
+    by_diff = len(j_def) == 1 and j_def[0].k == "BinaryOperator" and j_def[0].op == "-" and unparse(strip_casts(j_def[0].c[0])) == OPC and \
+        unparse(strip_casts(j_def[0].c[1])) == "%s->opcodes" % OSET
     ok = ok and (by_name or by_diff)
     rep.check(ok, "D1-SAME-SET", where(gr), "index-source", "slot index j is the opcode's position in the set returned by find_by_opcode(opcode)",
               "slot index is no longer computed in the opcode's own set: opcode_set=%s j=%s" % ([unparse(x) for x in os_def], [unparse(x) for x in j_def]))
     fc = Facts(gr)
-    uses = [n for n in gr.walk() if n.k == "BinaryOperator" and n.op == "+" and unparse(strip_casts(n.c[1])) == "j" and "rules" in unparse(n.c[0])]
-    uses += [n for n in gr.walk() if n.k == "ArraySubscriptExpr" and unparse(n.c[1]) == "j" and "rules" in unparse(n.c[0])]
-    if not uses:
-        raise AnalysisBroken("orc_target_get_rule: use of the slot index not found")
+    uses = [u for u, _ in uses]
     for u in uses:
         conds = [(unparse(x[0]), x[1]) for x in fc.conds(u) if x[0] != "switch"]
         ok = False
@@ -55,7 +68,7 @@ def run(ctx):
             e = strip_casts(x[0])
             if e.k == "BinaryOperator" and e.op in ("!=", "==") and (x[1] is False) == (e.op == "!="):
                 sides = sorted(unparse(strip_casts(y)) for y in e.c)
-                if "opcode_set->opcode_major" in sides and any(t.endswith("opcode_major") and not t.startswith("opcode_set") for t in sides):
+                if "%s->opcode_major" % OSET in sides and any(t.endswith("opcode_major") and not t.startswith(OSET + "->") for t in sides):
                     ok = True
         rep.check(ok, "D1-SAME-SET", where(gr), "major-filter", "index used only with rule sets of the same opcode major",
                   "rules[j] is read from a rule set whose opcode_major was not compared with the opcode's set (facts: %s)" % conds, line=u.line)
@@ -87,10 +100,14 @@ def run(ctx):
     if len(loops) != 1:
         raise AnalysisBroken("orc_target_get_rule: expected one search loop")
     lp = loops[0]
-    init, cond, inc = unparse(lp.c[0]).replace(" ", ""), unparse(lp.c[1]).replace(" ", ""), unparse(lp.c[2]).replace(" ", "")
-    rep.check(init == "(i=(target->n_rule_sets-1))" and cond == "(i>=0)" and inc == "i--", "D2-NEWEST-FIRST", where(gr), "search-order",
+    from loops import counted
+    cl = counted(lp)
+    TG = gr.params[0]["name"]
+    ok = cl is not None and cl["dir"] == "desc" and cl["first"] == ("%s->n_rule_sets" % TG, -1) and cl["last"] == (None, 0)
+    rep.check(ok, "D2-NEWEST-FIRST", where(gr), "search-order",
               "rule sets searched from the newest (n_rule_sets-1) down to 0",
-              "search loop is `for (%s; %s; %s)`: a rule set registered later no longer takes precedence" % (init, cond, inc), line=lp.line)
+              "search loop is `for (%s; %s; %s)` (%s): a rule set registered later no longer takes precedence" %
+              (unparse(lp.c[0]), unparse(lp.c[1]), unparse(lp.c[2]), cl), line=lp.line)
     rets = [r for r in gr.walk() if r.k == "ReturnStmt" and r.c and r.c[0] is not None and strip_casts(r.c[0]).v is None]
     if not rets:
         raise AnalysisBroken("orc_target_get_rule: no non-constant return")
@@ -164,7 +181,8 @@ def run(ctx):
     fn = db.func("orc_opcode_find_by_name", "orcopcode")
     rep.saw(fn)
     lps = [n for n in fn.walk() if n.k == "ForStmt"]
-    ok = len(lps) == 1 and unparse(lps[0].c[0]).replace(" ", "") == "(i=0)" and "n_opcode_sets" in unparse(lps[0].c[1]) and unparse(lps[0].c[2]) == "i++"
+    cl4 = counted(lps[0]) if len(lps) == 1 else None
+    ok = cl4 is not None and cl4["dir"] == "asc" and cl4["first"] == (None, 0) and cl4["last"] == ("n_opcode_sets", -1)
     rets = [r for r in fn.walk() if r.k == "ReturnStmt" and r.c and strip_casts(r.c[0]).v != 0]
     ok = ok and rets and all(any(a is lps[0] for a in r.ancestors()) for r in rets)
     rep.check(bool(ok), "D4-BUILTIN-FIRST", where(fn), "lookup-order", "sets are searched in registration order and the first hit is returned",
